@@ -93,6 +93,18 @@ fn assembly() -> R {
             ensure!(bytes(&e3) == bytes(&e1), "bulk add differs from single adds", "add_assertion_envelopes({:?})", order);
             let e4 = s.add_assertions(&permuted);
             ensure!(bytes(&e4) == bytes(&e1), "bulk add differs from single adds", "add_assertions({:?})", order);
+            // a batch that repeats one of its elements at any place, and a batch re-adding a present assertion
+            let mut batch = permuted.clone();
+            let (what, at) = (choice(nas), choice(nas + 1));
+            batch.insert(at, permuted[what].clone());
+            let e5 = s.add_assertions(&batch);
+            ensure!(bytes(&e5) == bytes(&e1), "bulk add with a repeated element differs", "add_assertions with element {} repeated at {}", what, at);
+            let e6 = must!(s.add_assertion_envelopes(&batch), "add_assertion_envelopes refused");
+            ensure!(bytes(&e6) == bytes(&e1), "bulk add with a repeated element differs", "add_assertion_envelopes with element {} repeated at {}", what, at);
+            let e7 = e1.add_assertions(&[parts[what].clone()]);
+            ensure!(bytes(&e7) == bytes(&e1), "bulk add of a present assertion changed the envelope", "element {}", what);
+            let e8 = e1.add_assertions_salted(&[parts[what].clone()], false);
+            ensure!(bytes(&e8) == bytes(&e1), "bulk add of a present assertion changed the envelope", "add_assertions_salted(.., false) element {}", what);
         }
         2 => {
             op("remove_assertion");
